@@ -172,6 +172,48 @@ def shared_parser_part(ctx):
     return n
 
 
+def include_nesting(ctx):
+    """Files assembled with the include directive: a page whose include directive stands inside k nested containers, the included file holding
+    m nested containers of its own (and a further include): the token tree of the whole page obeys the grammar and the nesting limit."""
+    import mistune, tempfile, shutil, os
+    from mistune.directives import FencedDirective, RSTDirective, Include
+    n = 0
+    tmp = tempfile.mkdtemp(prefix="verif-c05-")
+    try:
+        def w(name, text):
+            with open(os.path.join(tmp, name), "w", encoding="utf-8") as f:
+                f.write(text)
+        def ladder(k, marks, last):
+            return "".join(marks[i % len(marks)] for i in range(k)) + last
+        for style in ("rst", "fenced"):
+            D = RSTDirective if style == "rst" else FencedDirective
+            inc = (lambda f: ".. include:: %s" % f) if style == "rst" else (lambda f: "```{include} %s\n```" % f)
+            for limit in (3, 6):
+                md = mistune.create_markdown(renderer=None, plugins=[D([Include()])])
+                md.block.max_nested_level = limit
+                for marks in (["- "], ["> "], ["- ", "> "], ["1. ", "- "]):
+                    for k in (0, 1, limit - 2, limit - 1, limit):
+                        for m in (1, limit - 1, limit, limit + 2):
+                            w("inner.md", ladder(m, marks, "leaf\n"))
+                            w("mid.md", ladder(max(m - 2, 0), marks, "x\n") + "\n" + inc("inner.md") + "\n")
+                            pre = ladder(k, marks, "")
+                            ind = " " * len(pre)
+                            body = inc(ctx.rng.choice(["inner.md", "mid.md"])).split("\n")
+                            w("page.md", "intro\n\n" + pre + body[0] + "\n" + "".join(ind + b + "\n" for b in body[1:]) + "\ntail\n")
+                            try:
+                                toks, _state = md.read(os.path.join(tmp, "page.md"))
+                            except Exception:
+                                continue       # C01's business
+                            n += 1
+                            r = tokgrammar.wf(toks, limit)
+                            if r:
+                                ctx.fail("grammar:" + r[1].split(" ")[0] + ":include", "token tree of a page assembled with the include directive (%s, limit %d, directive inside %d container(s) %r, included file nests %d) violates the grammar at %s: %s"
+                                         % (style, limit, k, marks, m, r[0], r[1]), {"config": {"name": "include-" + style, "max_nested": limit}, "doc": open(os.path.join(tmp, "page.md")).read(), "inner": open(os.path.join(tmp, "inner.md")).read(), "where": r[0], "why": r[1]})
+    finally:
+        shutil.rmtree(tmp, ignore_errors=True)
+    return n
+
+
 def run(ctx):
     ctx.broken += common.proof_stage(ctx, THEOREMS)
     q = ctx.quick()
@@ -183,6 +225,7 @@ def run(ctx):
     n = oracle(ctx, docs, cfgs)
     n += custom_renderer_stream(ctx, docs[: (600 if q else 6000)])
     n += shared_parser_part(ctx)
+    n += include_nesting(ctx)
     lean_grammar_agrees(ctx, docs[: (800 if q else 8000)], cfgs)
     if ctx.broken and not ctx.failures:
         ctx.notes.append("search mode entered")
